@@ -134,6 +134,7 @@ type c12Run struct {
 	w     *World
 	m     *Market
 	h     c12Hist
+	ilk   map[string][][2]*big.Int // the harness's own book of locked commits
 	col   *Collector
 	den   map[string]string // symbolic -> real
 	id    map[string]int    // real -> model id
@@ -640,6 +641,9 @@ func c12Exec(t *testing.T, col *Collector, h c12Hist) string {
 				}
 				x.emit(fmt.Sprintf("OMintCommit %d %d %s %d", i, did, zstr(shares), lock), "ok", 1, i)
 				commitLike = true
+				if lock > now {
+					x.ibook(u.String(), real, shares, lock)
+				}
 			} else {
 				modelled = false
 			}
@@ -680,6 +684,9 @@ func c12Exec(t *testing.T, col *Collector, h c12Hist) string {
 			})
 			x.emit(fmt.Sprintf("OCommitLiquid %d %d %s %d", i, did, zstr(amt), lock), res.Kind(), 0, i)
 			commitLike = res.OK()
+			if res.OK() && lock > now {
+				x.ibook(u.String(), real, amt, lock)
+			}
 		case "k_uncommit":
 			amt = absAmt(pre.committed(real), unlockedOf(real))
 			if (real == "ueden" || real == "uedenb") && amt.Sign() <= 0 {
@@ -786,6 +793,13 @@ func c12Exec(t *testing.T, col *Collector, h c12Hist) string {
 					if locked := pre.lockedAt(real, now); post.committed(real).Cmp(locked) < 0 {
 						x.violate(k, "C12:locked-withdrawn", fmt.Sprintf("after uncommitting %s at t=%d only %s%s remain committed but %s were locked", amt, now, post.committed(real), real, locked))
 					}
+					// the same against the harness's OWN book of what it committed under which lock (the stored lock-up list is the
+					// value under test): every amount committed with an unlock time still ahead must remain committed
+					if locked := x.ilocked(u.String(), real, now); post.committed(real).Cmp(locked) < 0 {
+						x.violate(k, "C12:locked-withdrawn-by-own-book", fmt.Sprintf("after uncommitting %s at t=%d only %s%s remain committed although %s were committed under locks that are still running", amt, now, post.committed(real), real, locked))
+					}
+				} else {
+					x.iclear(u.String(), real) // a liquidation may take locked tokens: the book of this (account, denom) starts afresh
 				}
 				// an Eden uncommit may burn committed EdenB through the estaking hook
 				if real == "ueden" {
@@ -806,6 +820,7 @@ func c12Exec(t *testing.T, col *Collector, h c12Hist) string {
 			}
 		}
 		if op.Op == "k_burn" && res.OK() {
+			x.iclear(u.String(), "uedenb")
 			if d := new(big.Int).Sub(pre.committed("uedenb"), post.committed("uedenb")); d.Sign() != 0 {
 				x.nontrivial = true
 				if _, ok := x.burnt["uedenb"]; !ok {
@@ -832,6 +847,24 @@ func c12Exec(t *testing.T, col *Collector, h c12Hist) string {
 	col.Sample(h)
 	return fmt.Sprintf("CApp (mkC %d %d [\n  %s]\n  [%s])", h.ID, len(x.users), strings.Join(x.steps, ";\n  "), strings.Join(fin, ";\n   "))
 }
+
+// independent book of locked commits (account, denom) -> [(amount, unlock)]
+func (x *c12Run) ibook(acct, denom string, amt *big.Int, unlock int64) {
+	if x.ilk == nil {
+		x.ilk = map[string][][2]*big.Int{}
+	}
+	x.ilk[acct+"|"+denom] = append(x.ilk[acct+"|"+denom], [2]*big.Int{new(big.Int).Set(amt), big.NewInt(unlock)})
+}
+func (x *c12Run) ilocked(acct, denom string, now int64) *big.Int {
+	s := new(big.Int)
+	for _, l := range x.ilk[acct+"|"+denom] {
+		if l[1].Int64() > now {
+			s.Add(s, l[0])
+		}
+	}
+	return s
+}
+func (x *c12Run) iclear(acct, denom string) { delete(x.ilk, acct+"|"+denom) }
 
 // ---------- pure part ----------
 
@@ -1001,5 +1034,27 @@ func c12Corpus() []c12Hist {
 				{Op: "profile", D: "xt", CE: true, WE: false}, {Op: "k_uncommit", Acct: 3, D: "xt", Amt: "1", Liq: true},
 				{Op: "profile", D: "xt", CE: true, WE: true}, {Op: "blocks", Dt: 61}, {Op: "k_uncommit", Acct: 3, D: "xt", Rel: 5}},
 		},
+		c12ManyLocks(false), c12ManyLocks(true),
 	}
+}
+
+// c12ManyLocks: one account commits the same denom under a lock many times without ever withdrawing (the lock-up list only shrinks on a
+// withdrawal), then tries to take out what it committed last while that lock is still running; then waits it out
+func c12ManyLocks(pool bool) c12Hist {
+	var ops []c12Op
+	for i := 0; i < 13; i++ {
+		if pool {
+			ops = append(ops, c12Op{Op: "join", Acct: 2, D: "p1", Amt: fmt.Sprint(1_000_000 + 1000*i)}, c12Op{Op: "blocks", Dt: 4000})
+		} else {
+			ops = append(ops, c12Op{Op: "k_commit", Acct: 3, D: "xt", Amt: fmt.Sprint(100 + i), Lock: 600}, c12Op{Op: "blocks", Dt: 700})
+		}
+	}
+	if pool {
+		ops = append(ops, c12Op{Op: "join", Acct: 2, D: "p1", Amt: "2000000"}, c12Op{Op: "blocks", Dt: 600}, c12Op{Op: "exit", Acct: 2, D: "p1", Rel: 5},
+			c12Op{Op: "exit", Acct: 2, D: "p1", Rel: 4}, c12Op{Op: "blocks", Dt: -3}, c12Op{Op: "exit", Acct: 2, D: "p1", Rel: 5})
+	} else {
+		ops = append(ops, c12Op{Op: "k_commit", Acct: 3, D: "xt", Amt: "5000", Lock: 600}, c12Op{Op: "blocks", Dt: 60}, c12Op{Op: "k_uncommit", Acct: 3, D: "xt", Rel: 5},
+			c12Op{Op: "k_uncommit", Acct: 3, D: "xt", Amt: "5000"}, c12Op{Op: "blocks", Dt: -3}, c12Op{Op: "k_uncommit", Acct: 3, D: "xt", Rel: 5})
+	}
+	return c12Hist{Ops: ops}
 }
